@@ -363,14 +363,19 @@ func forEachMediaRange(header []byte, functor func([]byte)) {
 					if quotes%2 == 0 {
 						break loop
 					}
+					escaping = false
 				case '"':
 					if !escaping {
 						quotes++
 					}
+					escaping = false
 				case '\\':
 					if quotes%2 == 1 {
 						escaping = !escaping
 					}
+				default:
+					// a quoted-pair escapes exactly one byte
+					escaping = false
 				}
 				n++
 			}
